@@ -190,6 +190,9 @@ func (e *c20Engine) generate(seed uint64) (*kit.Trace, *kit.Rng) {
 	// tasks
 	nt := cr.Range(2, 4)
 	maxOps := cr.Range(1, 8)
+	if kit.Depth > 1 && cr.Chance(1, 2) {
+		maxOps = cr.Range(4, 6+3*kit.Depth)
+	}
 	if cr.Chance(1, 12) {
 		nt = []int{8, 16, 32}[cr.Intn(3)]
 		maxOps = cr.Range(1, 2)
@@ -246,6 +249,13 @@ func (e *c20Engine) generate(seed uint64) (*kit.Trace, *kit.Rng) {
 		hf := uint32(cr.Range(0, 6))
 		if cr.Chance(1, 10) {
 			hf = 0
+		}
+		if cr.Chance(1, 25) {
+			// the wire-limit shape: such runs are decided by the race
+			// detector, deadlock / leak detection and (many-task runs) the
+			// interval check; porcupine is skipped for bit arrays > 64 bytes
+			n = []int{4096, 36000}[cr.Intn(2)]
+			hf = uint32(cr.Range(1, 50))
 		}
 		tw := []uint32{0, 1, 0xffffffff, cr.U32()}[cr.Intn(4)]
 		sh := c20Shape{n, hf, tw, uint8(cr.Intn(3))}
@@ -997,6 +1007,12 @@ func (e *c20Engine) execute(t *kit.Trace, srng *kit.Rng, st *kit.Stats, record b
 		}
 	case kindLin:
 		if !linCheckable(w) {
+			// wire-limit shapes: no porcupine (bit arrays too large for its
+			// state copies); insert/query-only histories still get the exact
+			// interval check
+			if v, ok := e.checkMonotone(t, w, recs, takeSnapshot(w), st); ok && v != nil {
+				return fail(v)
+			}
 			break
 		}
 		snap := takeSnapshot(w)
